@@ -100,6 +100,8 @@ def documents(draw, max_nodes=40, max_depth=5, namespaces=True, ids=True, astral
                 if budget[0] <= 0:
                     break
                 k = draw(st.integers(0, 9))
+                if ws_rich and draw(st.integers(0, 2)) > 0:
+                    kids.append(draw(st.sampled_from(WS)))   # whitespace-only text between the children
                 if k <= 4:
                     kids.append(element(depth + 1, scope))
                 elif k <= 7:
